@@ -34,7 +34,9 @@ fn gen_cfg() -> GenCfg {
     // The crash model is loss of a suffix of the sequence of device write CALLS. A storage that splits a call into
     // several short transfers would put crash points inside a 32-byte directory slot (a torn slot can resurrect a
     // deleted entry that shares the flushed file's cluster): that is the torn-write model the property excludes.
-    g.short_io_pct = 0;
+    // (Re-admitted after the oracle learnt to let the remount decide on cross-linked images: a flushed file's own
+    // entry is not rewritten by later operations, so torn transfers can only hit other entries.)
+    g.short_io_pct = 12;
     // every crash image is cloned and decoded: volumes with 65524-cluster tables make that 50x slower for no gain
     g.boundary_pct = 0;
     g
@@ -123,7 +125,6 @@ pub fn eval(case: &Case) -> CaseOut {
     cfg.flush_each = false;
     let mut vol = case.vol.clone();
     vol.access_date = false;
-    vol.short_io = 0;
     let mut run = match Run::new(&cfg, &vol) {
         Ok(r) => r,
         Err(e) => {
@@ -199,6 +200,10 @@ pub fn eval(case: &Case) -> CaseOut {
     out
 }
 
+thread_local! {
+    static FAILING_KK: std::cell::Cell<Option<u16>> = const { std::cell::Cell::new(None) };
+}
+
 pub fn replay(v: &serde_json::Value) -> Result<Option<String>, String> {
     let c: Case = serde_json::from_value(v["case"].clone()).map_err(|e| format!("bad case: {}", e))?;
     Ok(eval(&c).violation)
@@ -241,9 +246,17 @@ pub fn run(tier: Tier, seed: u64) -> i32 {
             };
             let mut agg = CaseOut::default();
             agg.hash = run::hash_str(&serde_json::to_string(c).unwrap_or_default()) ^ 0xF1;
-            for k in 0..80u16 {
+            // while a failure is being shrunk, only the fault position that failed is tried (160 positions per candidate
+            // would make shrinking take minutes); the reported case is re-checked with that position
+            let pinned: Option<u16> = FAILING_KK.with(|f| f.get());
+            for kk in 0..160u16 {
+                if pinned.map_or(false, |p| p != kk) {
+                    continue;
+                }
+                // every position twice: once as a hard error, once as the retryable "interrupted" condition
+                let (k, intr) = (kk / 2, kk % 2 == 1);
                 let mut ops: Vec<Op> = c.ops[..i].to_vec();
-                ops.push(Op::FaultNext { k, hold: 1 });
+                ops.push(Op::FaultNext { k, hold: 1, interrupted: intr });
                 ops.push(c.ops[i].clone());
                 ops.push(c.ops[i].clone());
                 ops.extend_from_slice(&c.ops[i + 1..]);
@@ -256,11 +269,13 @@ pub fn run(tier: Tier, seed: u64) -> i32 {
                 }
                 *agg.classes.entry("crash_images_checked".into()).or_insert(0) += o.classes.get("crash_images_checked").copied().unwrap_or(0);
                 if let Some(m) = o.violation {
-                    agg.violation = Some(format!("transient fault at device call {} of the flush at step {}, flush retried: {}", k, i, m));
+                    FAILING_KK.with(|f| f.set(Some(kk)));
+                    agg.replay_case = Some(serde_json::to_value(&fc).unwrap());
+                    agg.violation = Some(format!("transient {} at device call {} of the flush at step {}, flush retried: {}", if intr { "'interrupted' condition" } else { "fault" }, k, i, m));
                     agg.classes.insert("failing_k".into(), k as u64);
                     return agg;
                 }
-                if !fired {
+                if !fired && intr {
                     break;
                 }
             }
